@@ -345,6 +345,28 @@ func Menu() []Tmpl {
 //   killInvitee A->B | invite A->B | send A->B N | replenish A->B N
 // (actor names as in ActorNames); nil if the name has no such form.
 func Dyn(name string) *Tmpl {
+	if len(name) > 4 && name[:4] == "cer:" {
+		var parts []string
+		cur := ""
+		for _, ch := range name[4:] {
+			if ch == ':' {
+				parts = append(parts, cur)
+				cur = ""
+			} else {
+				cur += string(ch)
+			}
+		}
+		parts = append(parts, cur)
+		if len(parts) == 3 {
+			for i, n := range ActorNames {
+				if n == parts[1] {
+					t := CerTmpl(parts[0], i, parts[2])
+					return &t
+				}
+			}
+		}
+		return nil
+	}
 	actor := func(s string) (int, bool) {
 		for i, n := range ActorNames {
 			if n == s {
@@ -387,6 +409,12 @@ func Dyn(name string) *Tmpl {
 		return &Tmpl{Name: name, Build: func(b *B) *types.Transaction { return b.Tx(sp) }}
 	}
 	switch verb {
+	case "submitFlip":
+		// "submitFlip <A> <pair>" (amount slot carries the pair index)
+		pair := uint8(amount)
+		return &Tmpl{Name: name, Build: func(b *B) *types.Transaction {
+			return b.Tx(Spec{From: f, Type: types.SubmitFlipTx, Payload: attachments.CreateFlipSubmitAttachment(cidOf(fmt.Sprintf("flip-%d-%d", f, pair)), pair)})
+		}}
 	case "online":
 		return mk(Spec{From: f, Type: types.OnlineStatusTx, Payload: Online(true)})
 	case "offline":
